@@ -916,7 +916,7 @@ def check_c12(pid, tier, build, props):
                        "reviewed table; for the classes sorted-result, singleton, len-member, delete-keys, "
                        "commutative the result is invariant under every permutation of the enumeration order "
                        "(universal lemmas over the models). NOT proved and named as such: the sites of class "
-                       "'fixpoint' (dominator work-list and entries order, _imm_doms pruning, to_dict's queue, "
+                       "'fixpoint' (dominator work-list and entries order, _imm_doms pruning, "
                        "prune_unreachable) and CPython's string hashing itself - the runtime behaviour the model "
                        "cannot exhibit; these rest on the cross-seed runs only.",
     }
@@ -1075,3 +1075,69 @@ def par_nproc():
 
 
 REGISTRY["C02"] = check_c02
+
+
+# --------------------------------------------------------------------------- C15
+def check_c15(pid, tier, build, props):
+    from . import c15, par
+
+    t = common.Timer()
+    problems = base_problems(build, props, pid)
+    items = c15.items_for(tier, common.seed())
+    out, errors = par.run(items, c15.export_item)
+    if errors:
+        problems.append("driver errors: %r" % errors[:2])
+    violations = []
+    n_dicts = agree = hyp = 0
+    graphs = 0
+    for item, meta, res in out:
+        if meta and "harness_error" in meta:
+            problems.append("harness error: %r" % (meta,))
+            continue
+        graphs += 1
+        for f in meta["failures"]:
+            if len(violations) < 6:
+                violations.append({"graph": item[1], "payload": item[2], "stage": stages.STAGES[f["stage"]],
+                                   "witness": {"reason": f["what"] + ": " + f["reason"]}})
+        if res is None:
+            continue
+        rs = res if (res and isinstance(res[0], list)) else [res]
+        for x in rs:
+            n_dicts += 1
+            agree += 1 if x[0] == 1 else 0
+            hyp += 1 if x[1] == 1 else 0
+            if x[0] != 1 and len(violations) < 6:
+                violations.append({"graph": item[1], "payload": item[2], "witness": None,
+                                   "note": "written dictionary differs from the model's to_dict of the exported graph"})
+    nth = len(props["theorems"])
+    coverage = {
+        "obligations": nth + 1,
+        "discharged": (nth if props["ok"] else 0) + (1 if n_dicts and agree == n_dicts and not violations else 0),
+        "checker_cmd": "coqc Props/C15.v; build/extract/vchk (Serial.run_c15) on written dictionaries + exported graphs",
+        "trusted_base": TRUSTED + ["extraction and ocaml/driver.ml", "harness/vh/c15.py, export.py",
+                                   "PyYAML (the YAML text layer is exercised, not modelled)"],
+        "theorems": props["theorems"],
+        "evaluations": n_dicts,
+        "distinct_nontrivial": graphs,
+        "rule": "closed CFGs (all with <=3 blocks, sampled 4-block, shapes, random up to 30 blocks; plain and bytecode "
+                "payloads) after each of the three stages; per graph: write, read, write again (dict and YAML), "
+                "compare dictionaries and structures; every written dictionary (of the graph and of the re-read "
+                "graph) compared with the model's to_dict; distinct = input graphs",
+        "dictionaries_equal_to_model": agree, "theorem_hypotheses_hold": hyp,
+        "samples": [{"graph": items[len(items) // 2][1], "payload": items[len(items) // 2][2]}],
+        "traces_validated_against_impl": agree,
+        "explanation": "Proved (U): a dictionary entry determines its block (class, payload, ordered successors, back "
+                       "edges, table / assignments, region kind, header, exiting, recorded parent, children); two "
+                       "hierarchies with unique names and the same dictionary have the same blocks and the same "
+                       "nesting. Evaluated per graph on the implementation: to_dict(from_dict(to_dict x)) == "
+                       "to_dict x, the same through YAML, and both dictionaries equal the model's to_dict of the "
+                       "exported graphs - so, by the theorems, the re-read graph equals the written one in "
+                       "everything the dictionary records. Not modelled: from_dict's reconstruction itself and the "
+                       "YAML text layer (PyYAML); dictionary order inside a graph and the top region's name are not "
+                       "recorded by to_dict; PythonASTBlock cannot be serialised (not claimed by the property).",
+    }
+    return {"coverage": coverage, "violations": violations, "problems": problems, "level": "proof",
+            "wall_s": t.s(), "broken_name": "Props/C15.v / correspondence to_dict = Serial.to_dict"}
+
+
+REGISTRY["C15"] = check_c15
